@@ -17,11 +17,11 @@ ID = "C20"
 LEVEL = "fault_enumeration"
 CHUNK = 96
 DET_SAMPLE = 3          # plans re-executed in the parent for the determinism spot check (each is a batch of 96 cases)
-A_EVENTS = {"get": 400_000, "bulkget": 400_000, "walk": 1_200_000, "trap": 250_000}
+A_EVENTS = {"get": 400_000, "bulkget": 400_000, "walk": 1_200_000, "bulkwalk": 1_200_000, "trap": 250_000}
 B_EVENTS = 200            # counted events per datagram octet
 C_BYTES = 16 << 20        # traced-memory allowance per exchange
 D_BYTES = 64              # traced bytes per datagram octet
-RULE = ("Base messages are produced in simulation by fixed scenarios: v1/v2c responses to get, bulkget and a mid-walk GETNEXT, "
+RULE = ("Base messages are produced in simulation by fixed scenarios: v1/v2c responses to get, bulkget, a mid-walk GETNEXT and a mid-walk GETBULK (one datagram mutated, or every datagram from that one on), "
         "v3 discovery replies and responses at noAuthNoPriv, authNoPriv(MD5) and authPriv(SHA-1), an unauthenticated and an "
         "authenticated USM Report, and a v2c trap to a registered listener. For each base message the `corrupt`/`rewrite` "
         "network fault delivers, inside an otherwise normal exchange: EVERY single-bit flip, EVERY truncation, at EVERY TLV "
@@ -30,7 +30,7 @@ RULE = ("Base messages are produced in simulation by fixed scenarios: v1/v2c res
         "quick), seeded pairs and triples of header positions with dictionary values, indefinite lengths with end-of-contents, "
         "seeded random strings of 0-2000 octets and some of 65507, constructed values nested up to the UDP maximum, and "
         "WELL-FORMED but unusually large variants of the message (up to 6 500 tiny bindings, one 60 000-octet string, error "
-        "responses with thousands of bindings), and v3 messages whose engine boots/time are well-formed INTEGERs of 3-200 "
+        "responses with thousands of bindings) and degenerate ones (no binding at all, a single binding), and v3 messages whose engine boots/time are well-formed INTEGERs of 3-200 "
         "octets (2^80 and beyond). 'After "
         "authentication' = the agent applies the mutation to the scoped PDU before encrypting and signing. Oracle: while the "
         "client processes the exchange every Python function entry, call and loop jump outside the harness is counted "
@@ -48,9 +48,9 @@ ASSUMPTIONS = [
     "client: there the follow-up request is judged only if the client raised for that datagram (no further request was "
     "sent in the same call), as the statement says",
 ]
-PROBES = ["flip", "trunc", "hsub", "hsub_multi", "eoc", "random", "random_max_size", "nest", "post_auth", "discovery_reply",
+PROBES = ["every_later_datagram_mutated", "flip", "trunc", "hsub", "hsub_multi", "eoc", "random", "random_max_size", "nest", "post_auth", "discovery_reply",
           "report", "trap", "raised", "accepted_mutated", "recursion_error", "indefinite_no_eoc_reached", "timeout_path",
-          "memory_measured", "big_wellformed", "big_over_50k_octets", "huge_engine_boots_or_time"]
+          "memory_measured", "big_wellformed", "empty_or_single_binding_list", "big_over_50k_octets", "huge_engine_boots_or_time"]
 shrink_lists = [("mutations",)]
 DICT = [0x00, 0x01, 0x7F, 0x80, 0x81, 0x82, 0x83, 0x84, 0x88, 0xFF, 0x04, 0x30, 0xA2, 0x02, 0x43, 0x44]
 
@@ -59,6 +59,7 @@ MIB = {(1, 3, 6, 1, 2, 1, 1, 1, 0): ("str", b"descr" * 4), (1, 3, 6, 1, 2, 1, 1,
 GET = {"op": "get", "oid": (1, 3, 6, 1, 2, 1, 1, 1, 0)}
 BULK = {"op": "bulkget", "scalars": [(1, 3, 6, 1, 2, 1, 1, 1)], "repeaters": [(1, 3, 6, 1, 2, 1, 1, 2)], "maxrep": 3}
 WALK = {"op": "walk", "root": (1, 3, 6, 1, 2, 1, 1)}
+BULKWALK = {"op": "bulkwalk", "roots": [(1, 3, 6, 1, 2, 1, 1), (1, 3, 6, 1, 2, 1, 2)], "bulk": 2}
 V2C = {"version": "v2c", "community": "public"}
 V1 = {"version": "v1", "community": "public"}
 V3N = {"version": "v3", "user": "u", "level": 0}
@@ -73,6 +74,11 @@ SCENARIOS: Dict[str, tuple] = {
     "v1-get": (V1, V1, GET, 0, "pre", None),
     "v2c-bulkget": (V2C, V2C, BULK, 0, "pre", None),
     "v2c-walk-mid": (V2C, V2C, WALK, 1, "pre", None),
+    "v2c-bulkwalk-mid": (V2C, V2C, BULKWALK, 1, "pre", None),
+    # "sticky": EVERY datagram from the k-th on is mutated in the same way while the operation runs (an agent that is
+    # broken, not one damaged datagram): the operation must still end
+    "v2c-bulkwalk-rest": (V2C, V2C, BULKWALK, 1, "pre", "sticky"),
+    "v2c-walk-rest": (V2C, V2C, WALK, 1, "pre", "sticky"),
     "v3-noauth-disco": (V3N, V3N, GET, 0, "pre", None),
     "v3-noauth-get": (V3N, V3N, GET, 1, "pre", None),
     "v3-auth-get": (V3A, V3A, GET, 1, "pre", None),
@@ -85,7 +91,7 @@ SCENARIOS: Dict[str, tuple] = {
     "v3-report-notintime": (V3A, V3A, GET, 1, "pre", "reboot-after-discovery"),
     "trap-v2c": (V2C, V2C, None, 0, "pre", "trap"),
 }
-QUICK_SCENARIOS = ["v2c-get", "v3-auth-get", "v3-auth-get-post", "v3-noauth-disco", "v3-report-unknown-user", "trap-v2c"]
+QUICK_SCENARIOS = ["v2c-get", "v2c-bulkwalk-rest", "v3-auth-get", "v3-auth-get-post", "v3-noauth-disco", "v3-report-unknown-user", "trap-v2c"]
 TRAP_VBS = [((1, 3, 6, 1, 2, 1, 1, 3, 0), ("tt", 4711)), ((1, 3, 6, 1, 6, 3, 1, 1, 4, 1, 0), ("oid", (1, 3, 6, 1, 4, 1, 8072, 2, 3, 0, 1))),
             ((1, 3, 6, 1, 4, 1, 8072, 2, 3, 2, 1), ("int", 123456)), ((1, 3, 6, 1, 4, 1, 8072, 2, 3, 2, 2), ("str", b"payload"))]
 TRAP_LISTEN = ("10.0.0.1", 162)
@@ -299,6 +305,9 @@ class Env:
                 info["mutated"] = apply_mutation(data, m)
                 info["c2a_at_delivery"] = w.net.dir_index["c2a"]
                 return info["mutated"]
+            if direction == "a2c" and idx > base_idx + self.k and self.special == "sticky":
+                info["sticky"] = info.get("sticky", 0) + 1
+                return apply_mutation(data, m)
             return None
 
         def hook_scoped(req: dict, scoped: bytes) -> bytes:
@@ -334,7 +343,7 @@ class Env:
         mutated = info["mutated"]
         out = {"status": status, "events": events, "peak": peak, "orig": info["orig"], "mutated": mutated,
                "budget": budget, "indef": self.indef_hits > hits0, "exc": type(val).__name__ if status != "ok" else None,
-               "value": val if status == "ok" else None, "follow": None,
+               "value": val if status == "ok" else None, "follow": None, "sticky": info.get("sticky", 0),
                # the client went on to send further requests after the mutated datagram: it accepted it
                "went_on": "c2a_at_delivery" in info and w.net.dir_index["c2a"] > info["c2a_at_delivery"]}
         if status in ("budget", "loopcap", "base"):
@@ -417,6 +426,7 @@ def _segments(tier: str) -> List[Tuple[str, str, int]]:
         segs.append((name, "nest", 8 if tier == "quick" else 24))
         if "disco" not in name and "report" not in name:
             segs.append((name, "big", 6 if tier == "quick" else 24))
+            segs.append((name, "tiny", 6))
         if name.startswith("v3") and SCENARIOS[name][4] == "pre":
             segs.append((name, "secint", 12 if tier == "quick" else 36))
     return segs
@@ -477,6 +487,9 @@ def plan_for(tier: str, seed: int, i: int) -> dict:
         elif fam == "secint":
             sizes = [5, 8, 11, 16, 4, 9, 33, 64, 127, 126, 3, 200]
             muts.append(["secint", j % 3, sizes[(j // 3) % len(sizes)]])
+        elif fam == "tiny":
+            # well-formed but degenerate: a response / an error response with no binding at all, or with a single one
+            muts.append(["big", (0, 2, 3)[j % 3], j // 3])
         elif fam == "big":
             style = j % 4
             sizes = [2000, 8000, 500, 60000] if style == 1 else [300, 2500, 1000, 6500, 4000, 50]
@@ -552,7 +565,9 @@ def execute(plan: dict) -> dict:
             probes["random_max_size"] |= int(fam == "rand" and m[2] == 65507); probes["nest"] |= int(fam == "nest")
             probes["huge_engine_boots_or_time"] |= int(fam == "secint" and reached and changed)
             probes["big_wellformed"] |= int(fam == "big" and reached)
+            probes["empty_or_single_binding_list"] |= int(fam == "big" and m[2] <= 1 and reached)
             probes["big_over_50k_octets"] |= int(fam == "big" and reached and len(mutated) > 50000)
+            probes["every_later_datagram_mutated"] |= int(res.get("sticky", 0) > 0)
             probes["post_auth"] |= int(env.where == "post" and reached)
             probes["discovery_reply"] |= int("disco" in name and reached); probes["report"] |= int("report" in name and reached)
             probes["trap"] |= int(env.special == "trap")
